@@ -32,7 +32,8 @@ def run(ctx):
         json.dump(plan, f)
     res = ctx.gotest('handshake', 'TestVerif_C07', also=('hs',), timeout=1500)
     hs.finish(ctx, res, 'harness')
-    ctx.require_actions('scenario', 'junk:truncated-after-ephemeral', 'junk:truncated-inside-static', 'junk:ephemeral-all-zero',
+    if not ctx.violations:      # vacuity only matters for a run that reports no disagreement
+        ctx.require_actions('scenario', 'junk:truncated-after-ephemeral', 'junk:truncated-inside-static', 'junk:ephemeral-all-zero',
                         'junk:ephemeral-low-order', 'junk:ephemeral-off-curve', 'junk:payload-bit-flip', 'junk:truncated-header-only',
                         'T:Deliver', 'T:settle')
 
